@@ -1320,7 +1320,9 @@ def script_fn(seed, mode):
         d = {}
         for name in OBJ_NAMES:
             r = rng.random()
-            if mode.get('special', 0) and r < mode['special']:
+            if mode.get('nobest'):
+                v = rng.choice([float('nan'), float('inf')])     # nothing compares below the initial best_score = inf
+            elif mode.get('special', 0) and r < mode['special']:
                 v = rng.choice(SPECIAL_SCORES)
             elif mode.get('ties', 0) and r < mode.get('special', 0) + mode['ties']:
                 v = float(rng.choice([1, 2, 3]))          # few distinct values: ties between candidates and with self
@@ -1354,10 +1356,17 @@ def gen_scripted_specs(ctx, lits):
         else:
             objective = rng.choice(['GCV' if known else 'UBRE', 'BIC', 'ubre', 'Auto'])
         mode = rng.choice([dict(), dict(ties=0.8), dict(skip=0.3), dict(skip=0.3, ties=0.6), dict(special=0.3), dict(skip=1.0),
-                           dict(special=1.0), dict(skip=0.5, special=0.5), dict(ties=1.0)])
+                           dict(special=1.0), dict(skip=0.5, special=0.5), dict(ties=1.0), dict(nobest=1)])
         specs.append(dict(cls=cls, scale=0.5 if known else None, terms=terms, n=30, d=3, data_seed=3, fitted=rng.random() < 0.5,
                           keep_best=rng.random() < 0.65, return_scores=rng.random() < 0.7, objective=objective, grids=grids,
                           weights=False, exposure=False, tol=1e-4, max_iter=100, script_seed=rng.randrange(10 ** 9), mode=mode))
+    # no candidate scores below inf: keep_best must leave self alone (fitted or not), every return_scores / objective
+    for k in range(8):
+        specs.append(dict(cls='Scripted-known' if k & 4 else 'Scripted', scale=0.5 if k & 4 else None,
+                          terms=[dict(kind='s', feature=0, n_splines=6, spline_order=3, lam=0.6)], n=30, d=3, data_seed=3,
+                          fitted=False, keep_best=True, return_scores=bool(k & 1), objective='AIC' if k & 2 else 'auto',
+                          grids=[dict(param='lam', desc=dict(kind='1d', values=[0.1, 1.0, 10.0][:2 + k % 2], container='list'))],
+                          weights=False, exposure=False, tol=1e-4, max_iter=100, script_seed=777 + k, mode=dict(nobest=1)))
     VALID_ONLY[0] = False
     return specs
 
